@@ -84,10 +84,10 @@ func (s *dispatchState) YieldToScheduled() {
 	s.v.Store(dispatchScheduled)
 }
 
-// reset forces the state back to Idle. Called by the worker turn loop
-// when it observes a drained mailbox (paired with TrySchedule for the
-// race-safe reclaim) and by the actor restart path after the caller
-// has confirmed no worker holds the actor.
+// reset forces the state back to Idle. Called only by the owner of the
+// current turn, when it observes a drained mailbox (paired with
+// TrySchedule for the race-safe reclaim). Nobody else may call it: a
+// store of Idle while a worker is Processing lets a second worker in.
 func (s *dispatchState) reset() {
 	s.v.Store(dispatchIdle)
 }
